@@ -54,7 +54,7 @@ def simple_subspec(draw, nd, nvdim, dtype, allow_callable=True):
 
 
 @st.composite
-def spec_strategy(draw, g, subs, nvdim, dtype):
+def spec_strategy(draw, g, subs, nvdim, dtype, force_kind=None):
     nd = len(g["n"])
     kinds = ["const", "array", "callable", "field"]
     if nvdim == 1:
@@ -64,6 +64,8 @@ def spec_strategy(draw, g, subs, nvdim, dtype):
     if dtype == "bool":
         kinds = ["const", "array"]
     kind = draw(st.sampled_from(kinds))
+    if force_kind in kinds:
+        kind = force_kind
     if kind == "const":
         if dtype == "bool":
             return ["const", [draw(st.booleans()) for _ in range(nvdim)]]
@@ -109,8 +111,12 @@ def spec_strategy(draw, g, subs, nvdim, dtype):
 def value_case(draw):
     g, subs = draw(mesh_with_subs())
     nvdim = draw(gen.nvdim_strategy())
-    dtype = draw(st.sampled_from([None, None, "float", "int", "complex", "bool", "inferred-complex"]))
-    spec = draw(spec_strategy(g, subs, nvdim, "complex" if dtype == "inferred-complex" else dtype))
+    # (storage type, kind of specification) pairs through one hashed integer: Hypothesis correlates two small draws
+    mix = ((draw(st.integers(0, 2**40)) + 0xC02) * 0x9E3779B97F4A7C15) % 2**64 >> 9
+    dtypes = [None, None, "float", "int", "complex", "bool", "inferred-complex", "inferred-complex"]
+    dtype = dtypes[mix % len(dtypes)]
+    force = [None, None, "const", "array", "callable", "field", "field", "dict"][(mix // 8) % 8]
+    spec = draw(spec_strategy(g, subs, nvdim, "complex" if dtype == "inferred-complex" else dtype, force_kind=force))
     if dtype == "inferred-complex" and spec[0] in ("callable", "dict"):
         dtype = "complex"  # callables and dicts need an explicit complex dtype (documented)
     if spec[0] in ("callable",) and dtype in ("bool", "int"):
@@ -640,7 +646,73 @@ def nt_simple(case):
     return cells > 1
 
 
+# --------------------------------------------------------------------------- two fields are two fields
+
+
+@st.composite
+def independent_case(draw):
+    g, subs = draw(mesh_with_subs(maxcells=120))
+    return {"g": g, "subs": subs, "nvdim": draw(gen.nvdim_strategy()), "seed": draw(st.integers(0, 2**31)),
+            "dtype": draw(st.sampled_from(["float", "float", "complex", "int", "float32"])),
+            "how": draw(st.sampled_from(["field-source", "field-source-dtype", "update-from-field", "xarray", "array-attr",
+                                         "array-attr-dtype", "update-from-array-attr"])),
+            "write": draw(st.sampled_from(["imul", "index", "out-ufunc", "setter-then-index"]))}
+
+
+def check_independent(case):
+    """a field whose values were specified through ANOTHER FIELD of the library (the field itself, its `array`
+    attribute, its xarray export) holds those values as its own: writing into either of the two afterwards leaves the
+    other holding exactly what its specification assigned"""
+    import discretisedfield as df
+
+    g = case["g"]
+    n = tuple(g["n"])
+    k = case["nvdim"]
+    mesh = gen.build_mesh(g, subs=case["subs"])
+    npdt = {"float": np.float64, "complex": np.complex128, "int": np.int64, "float32": np.float32}[case["dtype"]]
+    arr = gen.make_array(case["seed"], (*n, k), "int", "complex" if case["dtype"] == "complex" else "float").astype(npdt)
+    f = df.Field(mesh, nvdim=k, value=arr.copy(), dtype=npdt)
+    how = case["how"]
+    tag(how)
+    if how == "field-source":
+        gfield = df.Field(mesh, nvdim=k, value=f)
+    elif how == "field-source-dtype":
+        gfield = df.Field(mesh, nvdim=k, value=f, dtype=npdt)
+    elif how == "update-from-field":
+        gfield = df.Field(mesh, nvdim=k, value=np.zeros((*n, k)), dtype=npdt)
+        gfield.update_field_values(f)
+    elif how == "xarray":
+        gfield = df.Field.from_xarray(f.to_xarray())
+    elif how == "array-attr":
+        gfield = df.Field(mesh, nvdim=k, value=f.array)
+    elif how == "array-attr-dtype":
+        gfield = df.Field(mesh, nvdim=k, value=f.array, dtype=npdt)
+    else:
+        gfield = df.Field(mesh, nvdim=k, value=np.zeros((*n, k)), dtype=npdt)
+        gfield.update_field_values(f.array)
+    require(np.array_equal(gfield.array, arr), "derived-values", f"{how}")
+    if np.shares_memory(gfield.array, f.array):
+        raise Violation("fields-share-memory", f"the field specified through {how} shares its array with the field it was "
+                                               f"specified from")
+    for target, other, who in ((gfield, f, "the new field"), (f, gfield, "the source field")):
+        before = other.array.copy()
+        w = case["write"]
+        if w == "imul":
+            target.array *= 2
+        elif w == "index":
+            target.array[(0,) * len(n)] = 7
+        elif w == "out-ufunc":
+            np.add(target.array, 1, out=target.array)
+        else:
+            target.array = target.array + 1
+            target.array[(0,) * len(n)] = -3
+        if not np.array_equal(other.array, before):
+            raise Violation("write-through", f"writing ({w}) into {who} ({how}) changed the other field")
+    tag("write:" + case["write"])
+
+
 SUBS = [
+    Sub("independent-fields", check_independent, independent_case(), nontrivial=nt_simple, quick=200, thorough=1500),
     Sub("value", check_value, value_case(), nontrivial=nontrivial, quick=700, thorough=3000),
     Sub("sample", check_sample, sample_case(), nontrivial=nt_simple, quick=500, thorough=3000),
     Sub("component", check_component, sample_case(), nontrivial=nt_simple, quick=300, thorough=1500),
